@@ -21,6 +21,7 @@ import (
 	"os/exec"
 	"sort"
 	"strings"
+	"sync"
 
 	"github.com/markkurossi/mpc/compiler"
 	"github.com/markkurossi/mpc/compiler/utils"
@@ -221,8 +222,70 @@ func c08Child() error {
 	enc := json.NewEncoder(f)
 	sharedParams := map[string]*utils.Params{}
 	sharedCompiler := map[string]*compiler.Compiler{}
-	for _, op := range ops {
+	var encMu sync.Mutex
+	one := func(op detOp, params *utils.Params, c *compiler.Compiler, barrier func()) error {
 		ev := detEvent{I: op.I, Proc: op.Proc, Share: op.Share, Key: op.Prog + "/" + op.Sizes + "/" + op.Vals}
+		var ssa bytes.Buffer
+		params.SSAOut = nopWC{&ssa}
+		func() {
+			defer func() {
+				if x := recover(); x != nil {
+					ev.Err = fmt.Sprintf("panic: %v", x)
+				}
+			}()
+			circ, _, err := c.Compile(c08Progs[op.Prog], c08Sizes(op.Sizes))
+			barrier() // concurrent operations also write their circuits out at the same time
+			if err != nil {
+				ev.Err = err.Error()
+				return
+			}
+			var b bytes.Buffer
+			if err := circ.Marshal(&b); err != nil {
+				ev.Err = err.Error()
+				return
+			}
+			ev.Circ = fmt.Sprintf("%x", sha256.Sum256(b.Bytes()))[:16]
+			ev.SSA = fmt.Sprintf("%x", sha256.Sum256(ssa.Bytes()))[:16]
+			ev.Gates = circ.NumGates
+		}()
+		params.SSAOut = nil
+		encMu.Lock()
+		defer encMu.Unlock()
+		return enc.Encode(ev)
+	}
+	for i := 0; i < len(ops); i++ {
+		op := ops[i]
+		if op.Share == "par" {
+			// the run of consecutive "par" operations executes at the same time, each with its own Params and Compiler
+			j := i
+			for j < len(ops) && ops[j].Share == "par" {
+				j++
+			}
+			group := ops[i:j]
+			var wg, atMarshal sync.WaitGroup
+			atMarshal.Add(len(group))
+			errs := make([]error, len(group))
+			for g, gop := range group {
+				wg.Add(1)
+				go func(g int, gop detOp) {
+					defer wg.Done()
+					params := c08Params(gop.Vals)
+					var once sync.Once
+					errs[g] = one(gop, params, compiler.New(params), func() {
+						once.Do(func() { atMarshal.Done(); atMarshal.Wait() })
+					})
+					once.Do(func() { atMarshal.Done() })
+				}(g, gop)
+			}
+			wg.Wait()
+			for _, e := range errs {
+				if e != nil {
+					return e
+				}
+			}
+			i = j - 1
+			continue
+		}
 		var params *utils.Params
 		var c *compiler.Compiler
 		switch op.Share {
@@ -245,30 +308,7 @@ func c08Child() error {
 			}
 			c = sharedCompiler[op.Vals]
 		}
-		var ssa bytes.Buffer
-		params.SSAOut = nopWC{&ssa}
-		func() {
-			defer func() {
-				if x := recover(); x != nil {
-					ev.Err = fmt.Sprintf("panic: %v", x)
-				}
-			}()
-			circ, _, err := c.Compile(c08Progs[op.Prog], c08Sizes(op.Sizes))
-			if err != nil {
-				ev.Err = err.Error()
-				return
-			}
-			var b bytes.Buffer
-			if err := circ.Marshal(&b); err != nil {
-				ev.Err = err.Error()
-				return
-			}
-			ev.Circ = fmt.Sprintf("%x", sha256.Sum256(b.Bytes()))[:16]
-			ev.SSA = fmt.Sprintf("%x", sha256.Sum256(ssa.Bytes()))[:16]
-			ev.Gates = circ.NumGates
-		}()
-		params.SSAOut = nil
-		if err := enc.Encode(ev); err != nil {
+		if err := one(op, params, c, func() {}); err != nil {
 			return err
 		}
 	}
